@@ -110,63 +110,63 @@ var c31Partials = []string{"none", "empty", "cp@1", "cp@h", "cp@l", "wp@1:first"
 
 var c31PartialClasses = []string{"none", "empty", "cp@h", "cp@l", "wp@h:last", "full-c", "full-w:first", "over-c+100"}
 
+// c31Corrupt damages b in place.
 func c31Corrupt(b []byte, mode string) []byte {
-	nb := make([]byte, len(b))
-	copy(nb, b)
-	if len(nb) == 0 {
-		return nb
+	if len(b) == 0 {
+		return b
 	}
 	switch mode {
 	case "first":
-		nb[0] ^= 0xff
+		b[0] ^= 0xff
 	case "last":
-		nb[len(nb)-1] ^= 0xff
+		b[len(b)-1] ^= 0xff
 	case "mid":
-		nb[len(nb)/2] ^= 0xff
+		b[len(b)/2] ^= 0xff
 	default: // all
-		for i := range nb {
-			nb[i] ^= 0x5a
+		for i := range b {
+			b[i] ^= 0x5a
 		}
 	}
-	return nb
+	return b
 }
 
 // c31BuildPartial returns the bytes of the pre-existing .partial file (exists
-// false: no file).
-func c31BuildPartial(spec string, content []byte) (b []byte, exists bool) {
+// false: no file), built in buf's storage (fresh megabyte allocations are very
+// slow under the race detector, so every worker reuses one buffer).
+func c31BuildPartial(buf []byte, spec string, content []byte) (b []byte, exists bool) {
 	L := len(content)
 	mode := ""
 	if i := strings.IndexByte(spec, ':'); i >= 0 {
 		spec, mode = spec[:i], spec[i+1:]
 	}
-	junk := func(k int) []byte {
-		j := make([]byte, k)
-		for i := range j {
-			j[i] = byte(0x3c + 7*i)
+	buf = buf[:0]
+	junk := func(b []byte, k int) []byte {
+		for i := 0; i < k; i++ {
+			b = append(b, byte(0x3c+7*i))
 		}
-		return j
+		return b
 	}
 	switch {
 	case spec == "none":
 		return nil, false
 	case spec == "empty":
-		return []byte{}, true
+		return buf, true
 	case strings.HasPrefix(spec, "cp@"):
-		return append([]byte{}, content[:c31Pos(spec[3:], L)]...), true
+		return append(buf, content[:c31Pos(spec[3:], L)]...), true
 	case strings.HasPrefix(spec, "wp@"):
-		return c31Corrupt(content[:c31Pos(spec[3:], L)], mode), true
+		return c31Corrupt(append(buf, content[:c31Pos(spec[3:], L)]...), mode), true
 	case spec == "full-c":
-		return append([]byte{}, content...), true
+		return append(buf, content...), true
 	case spec == "full-w":
-		return c31Corrupt(content, mode), true
+		return c31Corrupt(append(buf, content...), mode), true
 	case strings.HasPrefix(spec, "over-c+"):
 		k := 1
 		if spec != "over-c+1" {
 			k = 100
 		}
-		return append(append([]byte{}, content...), junk(k)...), true
+		return junk(append(buf, content...), k), true
 	case strings.HasPrefix(spec, "over-w+"):
-		return append(c31Corrupt(content, "first"), junk(100)...), true
+		return junk(c31Corrupt(append(buf, content...), "first"), 100), true
 	}
 	panic("c31: bad partial spec " + spec)
 }
@@ -198,7 +198,7 @@ func c31ValidPartials(specs []string, content []byte) []string {
 	seen := map[string]bool{}
 	var out []string
 	for _, s := range specs {
-		b, ex := c31BuildPartial(s, content)
+		b, ex := c31BuildPartial(nil, s, content)
 		k := fmt.Sprintf("%v/%x", ex, b)
 		if len(b) > 256 {
 			k = fmt.Sprintf("%v/%d/%s", ex, len(b), kit.Sig(string(b)))
@@ -241,8 +241,15 @@ func (g *c31Gen) take(stride int) bool {
 		return false
 	}
 	k /= n
-	if stride > 1 && (int64(k)+kit.Seed())%int64(stride) != 0 {
-		return false
+	if stride > 1 {
+		// seed-keyed mix so that a slice is spread over all loop dimensions
+		x := uint64(k)*0x9E3779B97F4A7C15 + uint64(kit.Seed())*0xC2B2AE3D27D4EB4F
+		x ^= x >> 29
+		x *= 0xBF58476D1CE4E5B9
+		x ^= x >> 32
+		if x%uint64(stride) != 0 {
+			return false
+		}
 	}
 	return true
 }
@@ -283,7 +290,7 @@ func c31BuildCases() *c31Gen {
 	for bi, b := range full {
 		for pi, p := range c31PartialClasses {
 			for k := 1; k <= 2; k++ {
-				if g.take(st(2, 1)) {
+				if g.take(st(4, 1)) {
 					g.add("E1b-single-leave", 4096, p, (bi+pi+k)%2 == 0, c31Leave(bi+pi+k), []string{b})
 				}
 			}
@@ -294,7 +301,7 @@ func c31BuildCases() *c31Gen {
 		for bi, b := range c31AlphabetCore {
 			for pi, p := range p4k {
 				for di, decl := range []bool{true, false} {
-					if g.take(st(6, 1)) {
+					if g.take(st(10, 1)) {
 						g.add("E2-pair", 4096, p, decl, c31Leave(ai+bi+pi+di), []string{a, b})
 					}
 				}
@@ -319,7 +326,7 @@ func c31BuildCases() *c31Gen {
 			for ci, c := range c31AlphabetSmall {
 				for pi, p := range c31PartialClasses {
 					for di, decl := range []bool{true, false} {
-						if g.take(st(12, 1)) {
+						if g.take(st(24, 1)) {
 							g.add("E3-triple", 4096, p, decl, c31Leave(ai+bi+ci+pi+di), []string{a, b, c})
 						}
 					}
@@ -336,7 +343,7 @@ func c31BuildCases() *c31Gen {
 					if sz == 0 && decl {
 						continue // a declared size of 0 IS "unknown"
 					}
-					if g.take(st(2, 1)) {
+					if g.take(st(3, 1)) {
 						g.add(fmt.Sprintf("E4-size%d", sz), sz, p, decl, c31Leave(bi+pi+di), []string{b})
 					}
 				}
@@ -347,7 +354,7 @@ func c31BuildCases() *c31Gen {
 	for bi, b := range c31AlphabetCore {
 		for pi, p := range c31PartialClasses {
 			for di, decl := range []bool{true, false} {
-				if g.take(st(8, 1)) {
+				if g.take(st(16, 1)) {
 					g.add("E5-1MiB", 1<<20, p, decl, c31Leave(bi+pi+di), []string{b})
 				}
 			}
@@ -355,7 +362,7 @@ func c31BuildCases() *c31Gen {
 	}
 	// R: seeded random longer scripts (3..8 requests), random positions,
 	// random partial lengths/corruption
-	nrand := kit.Scale(1200, 5000)
+	nrand := kit.Scale(800, 5000)
 	heads := []string{"ok", "ok", "ok", "ignore", "ignore", "w206z", "w206s", "416", "500", "503", "redirect", "drop", "404"}
 	faults := []string{"", "", "cl", "cl", "short", "chunk", "eof", "flip", "flip", "reset", "extra"}
 	for k := 0; k < nrand; k++ {
@@ -410,7 +417,7 @@ func c31BuildCases() *c31Gen {
 		for _, p := range []string{"none", "cp@h", "wp@h:last", "over-c+100"} {
 			for _, decl := range []bool{true, false} {
 				k++
-				if g.take(st(2, 1)) {
+				if g.take(st(4, 1)) {
 					g.add("S-slow", 4096, p, decl, c31Leave(k), sc)
 				}
 			}
@@ -497,6 +504,23 @@ type c31Worker struct {
 	dir  string
 	dig  map[int]string
 	othr *sync.Map
+	pbuf []byte // storage for the pre-existing partial
+	cbuf []byte // copy buffer for hashing the target
+}
+
+// c31FileDigest streams a file through SHA3-384 with the worker's buffer.
+func (w *c31Worker) fileDigest(path string) (string, int64) {
+	f, err := os.Open(path)
+	if err != nil {
+		return "unreadable: " + err.Error(), -1
+	}
+	defer f.Close()
+	h := crypto.SHA3_384.New()
+	n, err := io.CopyBuffer(h, struct{ io.Reader }{f}, w.cbuf)
+	if err != nil {
+		return "unreadable: " + err.Error(), n
+	}
+	return fmt.Sprintf("%x", h.Sum(nil)), n
 }
 
 func (w *c31Worker) run(cs *c31Case) {
@@ -508,7 +532,7 @@ func (w *c31Worker) run(cs *c31Case) {
 	os.Remove(target)
 	os.Remove(partialPath)
 
-	pb, pexists := c31BuildPartial(cs.Partial, content)
+	pb, pexists := c31BuildPartial(w.pbuf, cs.Partial, content)
 	if pexists {
 		if err := os.WriteFile(partialPath, pb, 0600); err != nil {
 			c.Inconclusive("cannot write partial: " + err.Error())
@@ -540,11 +564,12 @@ func (w *c31Worker) run(cs *c31Case) {
 	c.Eval()
 
 	// ---- observe -----------------------------------------------------------
-	var tgt []byte
 	tst, terr := os.Lstat(target)
 	targetPresent := terr == nil
-	if targetPresent && tst.Mode().IsRegular() {
-		tgt, _ = os.ReadFile(target)
+	targetRegular := targetPresent && tst.Mode().IsRegular()
+	tdig, tlen := "", int64(-1)
+	if targetRegular {
+		tdig, tlen = w.fileDigest(target)
 	}
 	pst, perr := os.Lstat(partialPath)
 	partialLeft := perr == nil
@@ -557,6 +582,14 @@ func (w *c31Worker) run(cs *c31Case) {
 	if err != nil {
 		errStr = err.Error()
 	}
+	// a Range request that was not answered with 206 makes downloadImpl start
+	// over from offset 0 of the file
+	rangeNotHonoured := false
+	for _, q := range reqs {
+		if q.Range != "" && q.Status != 206 {
+			rangeNotHonoured = true
+		}
+	}
 	witness := func() map[string]interface{} {
 		m := map[string]interface{}{
 			"case_index": cs.Index, "case": cs, "partial_class": pclass, "partial_len": len(pb),
@@ -564,8 +597,8 @@ func (w *c31Worker) run(cs *c31Case) {
 			"target_present": targetPresent, "partial_left": partialLeft,
 		}
 		if targetPresent {
-			m["target_len"] = len(tgt)
-			m["target_sha3_384"] = c31Digest(tgt)
+			m["target_len"] = tlen
+			m["target_sha3_384"] = tdig
 		}
 		if partialLeft {
 			m["partial_left_len"] = pst.Size()
@@ -583,16 +616,23 @@ func (w *c31Worker) run(cs *c31Case) {
 		switch {
 		case !targetPresent:
 			c.Violation("C31:nil-but-no-target", witness())
-		case !tst.Mode().IsRegular():
+		case !targetRegular:
 			c.Violation("C31:nil-but-target-not-regular", witness())
 		default:
 			c.Count("oracle_target_digests_compared", 1)
-			if c31Digest(tgt) != expected {
+			if tdig != expected {
+				// rare path: read the file to describe how it differs
+				tgt, _ := os.ReadFile(target)
 				shape := "other"
 				L := len(content)
 				switch {
 				case len(tgt) > L && bytes.Equal(tgt[:L], content):
-					shape = "stale-tail-after-content"
+					// the right content followed by bytes that were in the
+					// file before the last (re)start from offset 0
+					shape = "stale-tail:fresh-restart"
+					if rangeNotHonoured {
+						shape = "stale-tail:range-not-honoured"
+					}
 				case len(tgt) < L && bytes.Equal(tgt, content[:len(tgt)]):
 					shape = "truncated"
 				case len(tgt) == L:
@@ -616,7 +656,7 @@ func (w *c31Worker) run(cs *c31Case) {
 		c.Count("oracle_error_target_absence_checked", 1)
 		if targetPresent {
 			sub := "digest-wrong"
-			if tst.Mode().IsRegular() && c31Digest(tgt) == expected {
+			if targetRegular && tdig == expected {
 				sub = "digest-ok"
 			}
 			c.Violation("C31:error-but-target-present:"+sub, witness())
@@ -685,12 +725,17 @@ func (w *c31Worker) run(cs *c31Case) {
 	if err != nil {
 		out = c31ErrClass(err)
 	}
-	if cs.Index%97 == 0 || cs.Slow {
+	debug := os.Getenv("VERIF_C31_DEBUG") != ""
+	if cs.Index%97 == 0 || cs.Slow || debug {
 		served := []string{}
 		for _, q := range reqs {
 			served = append(served, fmt.Sprintf("%s[%s]->%d/%dB", q.Beh, q.Range, q.Status, q.Sent))
 		}
 		c.Sample(map[string]interface{}{"case": cs, "outcome": out, "served": served})
+		if debug {
+			fmt.Printf("C31-CASE %d %s size=%d partial=%s(%s,%d) declared=%v leave=%s script=%v -> %s target=%v/%d partial_left=%v served=%v\n",
+				cs.Index, cs.Family, cs.Size, cs.Partial, pclass, len(pb), cs.Declared, cs.Leave, cs.Script, out, targetPresent, tlen, partialLeft, served)
+		}
 	}
 }
 
@@ -760,7 +805,10 @@ func TestVerifC31(t *testing.T) {
 	newWorker := func(k int) *c31Worker {
 		d := filepath.Join(root, fmt.Sprintf("w%d", k))
 		os.MkdirAll(d, 0755)
-		return &c31Worker{c: c, g: g, srv: newC31Server(), sto: New(nil, nil), dir: d, dig: dig, othr: othr}
+		// New(nil, ...) writes to the package-level default config, so stores
+		// are created one after the other, never concurrently
+		return &c31Worker{c: c, g: g, srv: newC31Server(), sto: New(nil, nil), dir: d, dig: dig, othr: othr,
+			pbuf: make([]byte, 0, 1<<20+256), cbuf: make([]byte, 64<<10)}
 	}
 
 	// phase 1: everything but the slow bodies, a few workers in parallel (each
@@ -774,9 +822,9 @@ func TestVerifC31(t *testing.T) {
 	stale := int64(0)
 	for k := 0; k < nw; k++ {
 		wg.Add(1)
-		go func(k int) {
+		w := newWorker(k)
+		go func() {
 			defer wg.Done()
-			w := newWorker(k)
 			defer w.srv.close()
 			for cs := range ch {
 				w.run(cs)
@@ -784,7 +832,7 @@ func TestVerifC31(t *testing.T) {
 			w.srv.mu.Lock()
 			atomic.AddInt64(&stale, int64(w.srv.stale))
 			w.srv.mu.Unlock()
-		}(k)
+		}()
 	}
 	for _, cs := range fast {
 		ch <- cs
